@@ -750,6 +750,21 @@ def ld_mult_rule(ctx):
                 continue
             r = path.ret
             verdict = None
+            # module-level helpers that only compute a number from the shape are read through
+            from ..helperval import value_of_call
+            import copy as _copy
+
+            class _Helpers(ast.NodeTransformer):
+                def visit_Call(self, n):
+                    self.generic_visit(n)
+                    if isinstance(n.func, ast.Name):
+                        hv = value_of_call(p, fi.module, n)
+                        if hv is not None:
+                            return ast.copy_location(hv, n)
+                    return n
+
+            if any(isinstance(x, ast.Call) and isinstance(x.func, ast.Name) for x in ast.walk(r)):
+                r = ast.fix_missing_locations(_Helpers().visit(_copy.deepcopy(r)))
             # (a) log|scale| broadcast to the event shape, then summed over all of it
             from ..astutil import as_reduction
 
@@ -1395,6 +1410,13 @@ def orth_rule(ctx):
     elif isinstance(loop.target, ast.Name) and norm_text(it) == rows:
         q = loop.target.id
     else:
+        # rows normalised up front by F.normalize: that divides by max(|q|, eps), not by |q| (T-OPS) -- for a vector
+        # shorter than eps (1e-12 by default) the step is I - 2 r^2 u u^T with r = |q| / eps < 1: not a reflection,
+        # not orthogonal, not its own inverse, while the log-det stays 0
+        norm_calls = [c for c in ast.walk(ap.node) if isinstance(c, ast.Call) and isinstance(c.func, ast.Attribute) and c.func.attr == "normalize" and c.args and norm_text(c.args[0]) == rows]
+        if norm_calls and not any(k.arg == "eps" and const_number(k.value) == 0 for k in norm_calls[0].keywords):
+            res.fail(Finding("ORTH-REV", ap.module, ap.qualname, norm_calls[0], "the reflection vectors are normalised with `%s`, which divides by max(|q|, eps) (eps = 1e-12 unless given), not by |q|: for a vector shorter than eps the step x - 2 (x.u) u uses u with |u| < 1 and is neither a reflection nor orthogonal (its determinant is not +-1, it is not undone by the reversed sequence), while the transform still reports a zero log-det; divide by the squared norm itself (a reflection depends only on the direction of q)" % norm_text(norm_calls[0])[:50], construct="normalisation of the reflection vectors"))
+            return res
         res.undecide("_apply_transforms", "loop is not over the rows (optionally zipped with their squared norms)")
         return res
     env = body_expansion(loop.body, ap.node)
@@ -1411,6 +1433,27 @@ def orth_rule(ctx):
 
         upd = _Put().visit(copy.deepcopy(upd))
         paired = "__sqnorm__"
+    # torch.addr(M, a, b, beta=1, alpha=k) is M + k * outer(a, b): the fused spelling of the rank-one update
+    class _Addr(ast.NodeTransformer):
+        def visit_Call(self, n):
+            self.generic_visit(n)
+            if norm_text(n.func) in ("torch.addr",) and len(n.args) == 3 and not any(k.arg not in ("alpha",) for k in n.keywords):
+                alpha = next((k.value for k in n.keywords if k.arg == "alpha"), ast.Constant(value=1.0))
+                a = const_number(alpha)
+                outer = ast.Call(func=ast.Attribute(value=ast.Name(id="torch", ctx=ast.Load()), attr="ger", ctx=ast.Load()), args=[n.args[1], n.args[2]], keywords=[])
+                if a is not None and a < 0:
+                    term = outer if a == -1 else ast.BinOp(left=ast.Constant(value=-a), op=ast.Mult(), right=outer)
+                    if a != -1:
+                        # fold the factor into the second vector, where the reflection forms expect it
+                        term = ast.Call(func=outer.func, args=[n.args[1], ast.BinOp(left=ast.Constant(value=-a), op=ast.Mult(), right=n.args[2])], keywords=[])
+                    return ast.copy_location(ast.BinOp(left=n.args[0], op=ast.Sub(), right=term), n)
+                if a is not None and a > 0:
+                    term = outer if a == 1 else ast.Call(func=outer.func, args=[n.args[1], ast.BinOp(left=ast.Constant(value=a), op=ast.Mult(), right=n.args[2])], keywords=[])
+                    return ast.copy_location(ast.BinOp(left=n.args[0], op=ast.Add(), right=term), n)
+            return n
+
+    if any(isinstance(x, ast.Call) and norm_text(x.func) == "torch.addr" for x in ast.walk(upd)):
+        upd = ast.fix_missing_locations(_Addr().visit(copy.deepcopy(upd)))
     v = _reflection_verdict(upd, carried, q, paired)
     if v == "ok":
         res.ok("reflection: %s - outer(<%s, q>, (2 / |q|^2) q), threaded through the loop" % (carried, carried))
@@ -1493,13 +1536,19 @@ def ld_state_rule(ctx):
                     # through local aliases: scale = torch.as_tensor(scale)
                     for r in _roots_of(ast.Name(id=root, ctx=ast.Load()), ai.func.node):
                         stored.setdefault(r, name)
-        if not stored:
+        persistent = {n_ for n_, a_ in attrs.items() if a_.kind == "PARAM" or (a_.kind == "BUFFER" and a_.extra is True)}
+        if not stored and not persistent:
             continue
         n_cls += 1
         for name, ai in attrs.items():
             if ai.cls is not cls or ai.func is None or ai.value is None:
                 continue
             is_copy_kind = (ai.kind == "BUFFER" and ai.extra is False) or (ai.kind == "PLAIN" and isinstance(ai.value, ast.Call) and (norm_text(ai.value.func).startswith("torch.") or _last(ai.value) in ("log", "exp", "abs", "argsort", "inverse", "reciprocal", "sqrt")))
+            # ... or anything a helper of the class computes from a parameter / persistent buffer read through self
+            # (a slice, an index list, a Python number derived from the buffer's *values*)
+            if not is_copy_kind and ai.kind == "PLAIN" and isinstance(ai.value, ast.Call) and isinstance(ai.value.func, ast.Attribute) and isinstance(ai.value.func.value, ast.Name) and ai.value.func.value.id in ("self", "cls", cls.name) and cls.lookup_method(ai.value.func.attr) is not None:
+                if any(isinstance(x, ast.Attribute) and isinstance(x.value, ast.Name) and x.value.id == "self" and x.attr in persistent for a_ in list(ai.value.args) + [k.value for k in ai.value.keywords] for x in ast.walk(a_)):
+                    is_copy_kind = True
             if not is_copy_kind:
                 continue
             if _stores_value(ai.value) is not None and ai.kind == "PLAIN":
